@@ -167,6 +167,9 @@ type NodeStore struct {
 	T    *sched.T
 	Call string // label of the manager call in progress (set by the thread body)
 	Hist uint64 // running hash of every answer this node's thread has received (its complete local state)
+	// Frozen: the node is cut off from the store's quorum - reads are served from the replica as it
+	// is (no catch-up); the caller is expected to fail proposals itself.
+	Frozen bool
 }
 
 func (s *NodeStore) note(answer string) {
@@ -183,6 +186,9 @@ func (s *NodeStore) note(answer string) {
 func (s *NodeStore) read(label string, q any) {
 	if s.T != nil {
 		s.T.Point(fmt.Sprintf("n%d.%s", s.Node, label))
+	}
+	if s.Frozen {
+		return
 	}
 	lo, hi := s.C.applied[s.Node], len(s.C.cmds)
 	if !s.C.Lag || s.T == nil || lo == hi {
